@@ -358,6 +358,8 @@ def run_session(case):
                 if c[1] == 0:
                     if hasattr(screens[me], "answer"):
                         del screens[me].answer
+                elif c[1] == 3:
+                    screens[me].answer = None
                 else:
                     screens[me].answer = (c[1] == 1)
             elif op == 14:
